@@ -3,6 +3,7 @@ package props
 import (
 	"bytes"
 	"encoding/hex"
+	"encoding/json"
 	"fmt"
 	"os"
 	"runtime"
@@ -230,6 +231,7 @@ func RunPktExtra(prop, tier string, models []*PktModel, depth []int, budget time
 	scen := []map[string]any{}
 	outcomes := map[string]int{}
 	counters := map[string]int{}
+	selfTests := 0
 	per := budget / time.Duration(len(models))
 	for i, m := range models {
 		cfg := explore.Config{Workers: workers(), MaxDepth: depth[i], Deadline: time.Now().Add(per)}
@@ -240,6 +242,17 @@ func RunPktExtra(prop, tier string, models []*PktModel, depth []int, budget time
 				f.Path = append([]string{"scenario=" + m.Name}, f.Path...)
 				all = append(all, f)
 			}
+		}
+		// determinism self-test: the deepest path found is re-executed twice from the initial state, linearly, on
+		// fresh instances; both executions must produce byte-identical blocks on every chain
+		if dp := r.DeepestPaths(1); len(dp) == 1 && len(dp[0]) > 0 {
+			f1, e1 := m.ReplayPath(dp[0])
+			f2, e2 := m.ReplayPath(dp[0])
+			if e1 != nil || e2 != nil || f1 != f2 {
+				fmt.Fprintf(os.Stderr, "HARNESS-ERROR: replay of path %v is not reproducible: %v %v %s %s\n", dp[0], e1, e2, f1, f2)
+				os.Exit(2)
+			}
+			selfTests++
 		}
 		states += r.States
 		trans += r.Transitions
@@ -271,6 +284,7 @@ func RunPktExtra(prop, tier string, models []*PktModel, depth []int, budget time
 	cov["outcomes"] = outcomes
 	cov["probe_counters"] = counters
 	cov["probes"] = counters["probes"]
+	cov["determinism_self_tests"] = selfTests
 	for k, v := range ExtraCoverage {
 		cov[k] = v
 	}
@@ -286,4 +300,101 @@ func Steps(fs ...func(m *PktModel, w *world.World, ev *StepEvent) []explore.Find
 		}
 		return out
 	}
+}
+
+// PktRegistry maps a property to the constructor of its scenario models (used by check and replay).
+var PktRegistry = map[string]func(tier string) []*PktModel{}
+
+// lastModels remembers the models of the running check so that replay can rebuild them by name.
+func registerModels(prop string, models []*PktModel) {
+	lastRegistered[prop] = models
+}
+
+var lastRegistered = map[string][]*PktModel{}
+
+// ReplayFile re-executes a replay artefact linearly (no search) and prints every step.
+func ReplayFile(path string) int {
+	bz, err := os.ReadFile(path)
+	if err != nil {
+		fmt.Println(err)
+		return 2
+	}
+	var art struct {
+		Property  string   `json:"property"`
+		Signature string   `json:"signature"`
+		Detail    string   `json:"detail"`
+		Tier      string   `json:"tier"`
+		Path      []string `json:"path"`
+		Probe     string   `json:"probe"`
+	}
+	if err := json.Unmarshal(bz, &art); err != nil {
+		fmt.Println(err)
+		return 2
+	}
+	fmt.Printf("property %s  signature %s\n  %s\n", art.Property, art.Signature, art.Detail)
+	mk, ok := PktRegistry[art.Property]
+	if !ok || len(art.Path) == 0 || !strings.HasPrefix(art.Path[0], "scenario=") {
+		fmt.Printf("this artefact describes an input of an enumeration check, not an action path; the failing input is:\n  path: %v\n  probe: %s\nre-run ./check.sh %s %s to reproduce it\n", art.Path, art.Probe, art.Property, art.Tier)
+		return 0
+	}
+	name := strings.TrimPrefix(art.Path[0], "scenario=")
+	var m *PktModel
+	for _, tier := range []string{art.Tier, "thorough", "quick"} {
+		for _, c := range mk(tier) {
+			if c.Name == name && m == nil {
+				m = c
+			}
+		}
+	}
+	if m == nil {
+		fmt.Println("scenario not found:", name)
+		return 2
+	}
+	m.Props = map[string]bool{art.Property: true}
+	wk := m.NewWorker().(*pktWorker)
+	st, _ := m.Init(wk)
+	cur := st.(PState)
+	reproduced := false
+	report := func(fs []explore.Finding) {
+		for _, f := range fs {
+			if f.Property == art.Property {
+				fmt.Printf("    FINDING %s: %s %s\n", f.Signature, f.Detail, f.Probe)
+				if f.Signature == art.Signature {
+					reproduced = true
+				}
+			}
+		}
+	}
+	for i, label := range art.Path[1:] {
+		saved := m.ProbeMode
+		m.ProbeMode = "" // probes only in the final state
+		succs, sf, _ := m.Expand(wk, cur, i, true)
+		m.ProbeMode = saved
+		report(sf)
+		found := false
+		for _, s := range succs {
+			if s.Label == label {
+				fmt.Printf("  step %d: %s -> %s\n", i+1, label, s.Outcome)
+				report(s.Findings)
+				cur = s.State.(PState)
+				found = true
+				break
+			}
+		}
+		if !found {
+			fmt.Printf("  step %d: %s is not enabled here\n", i+1, label)
+			return 2
+		}
+	}
+	if m.ProbeMode == "" && art.Probe != "" {
+		m.ProbeMode = "try"
+	}
+	_, sf, _ := m.Expand(wk, cur, len(art.Path)-1, false)
+	report(sf)
+	if reproduced {
+		fmt.Println("REPRODUCED")
+		return 1
+	}
+	fmt.Println("not reproduced on the current tree")
+	return 0
 }
